@@ -98,13 +98,14 @@ Definition spec_vs_obs (q : qcase) (o : obs) : N :=
    deviation from the specification to exactly one known defect): the model is re-run with one flag switched on *)
 Definition with_flag (e : cfg) (i : N) : cfg :=
   match i with
-  | 0 => mkCfg true (strlit_invalid e) (fix9 e) (fix14 e) (fix15 e) (fixoid e)
-  | 1 => mkCfg (ks e) (strlit_invalid e) true (fix14 e) (fix15 e) (fixoid e)
-  | 2 => mkCfg (ks e) (strlit_invalid e) (fix9 e) true (fix15 e) (fixoid e)
-  | 3 => mkCfg (ks e) (strlit_invalid e) (fix9 e) (fix14 e) true (fixoid e)
-  | 4 => mkCfg (ks e) (strlit_invalid e) (fix9 e) (fix14 e) (fix15 e) true
-  | 5 => mkCfg (ks e) false (fix9 e) (fix14 e) (fix15 e) (fixoid e)
-  | _ => mkCfg true false true true true true
+  | 0 => mkCfg true (strlit_invalid e) (fix9 e) (fix14 e) (fix15 e) (fixoid e) (fixsb e)
+  | 1 => mkCfg (ks e) (strlit_invalid e) true (fix14 e) (fix15 e) (fixoid e) (fixsb e)
+  | 2 => mkCfg (ks e) (strlit_invalid e) (fix9 e) true (fix15 e) (fixoid e) (fixsb e)
+  | 3 => mkCfg (ks e) (strlit_invalid e) (fix9 e) (fix14 e) true (fixoid e) (fixsb e)
+  | 4 => mkCfg (ks e) (strlit_invalid e) (fix9 e) (fix14 e) (fix15 e) true (fixsb e)
+  | 5 => mkCfg (ks e) false (fix9 e) (fix14 e) (fix15 e) (fixoid e) (fixsb e)
+  | 7 => mkCfg (ks e) (strlit_invalid e) (fix9 e) (fix14 e) (fix15 e) (fixoid e) true
+  | _ => mkCfg true false true true true true true
   end.
 
 Definition model_is_spec (e : cfg) (q : qcase) : bool :=
@@ -115,7 +116,7 @@ Definition model_is_spec (e : cfg) (q : qcase) : bool :=
 
 Definition fixmask (q : qcase) : N :=
   fold_left (fun acc i => if model_is_spec (with_flag (q_cfg q) i) q then acc + N.shiftl 1 i else acc)
-            [0; 1; 2; 3; 4; 5; 6] 0.
+            [0; 1; 2; 3; 4; 5; 6; 7] 0.
 
 (* per case: (model agrees?, spec code, number of spec rows, mask of repairs that would close the gap to the spec) *)
 Definition verdict (qo : qcase * obs) : N * N * N * N :=
